@@ -51,6 +51,17 @@ static std::atomic<long> g_locks{0}, g_callbacks{0};
 static std::atomic<uint64_t> g_tid_ctr{0};
 static thread_local uint64_t t_id = ++g_tid_ctr;
 
+// replay log (mt scenario "rlog"): per thread every API call with its arguments, its result and the answer of
+// Policy::map inside it, plus a GLOBAL order of call entries and critical sections: a sequence number drawn from one
+// relaxed atomic counter at every call entry and inside every critical section (right after the mutex is acquired).
+// Relaxed read-modify-writes are totally ordered consistently with happens-before, and add no synchronisation that
+// could hide a race from TSan.  check.py replays the events in that order on the extracted concrete concurrent
+// model (coq/SlabConc/ConcSlabModel.v) and compares every returned address.
+struct RCall { char k; uintptr_t p; size_t n; uintptr_t res; uintptr_t mp; bool has_map; uint64_t seq; };
+struct RLog { std::vector<RCall> calls; std::vector<uint64_t> lseq; uintptr_t mp = 0; bool has_map = false; };
+static thread_local RLog *t_rl = nullptr;
+static std::atomic<uint64_t> g_seq{0};
+
 struct IMutex {
 	std::mutex m;                      // a real mutex, so that TSan sees the synchronisation the pool relies on
 	std::atomic<uint64_t> owner{0};    // instrumentation only (relaxed): detects a thread re-locking its own mutex
@@ -61,6 +72,7 @@ struct IMutex {
 			throw vh::AssertStop{"self-deadlock on a pool mutex"};
 		}
 		m.lock();
+		if(t_rl) t_rl->lseq.push_back(g_seq.fetch_add(1, std::memory_order_relaxed));
 		owner.store(t_id, std::memory_order_relaxed);
 		t_held++;
 		g_locks.fetch_add(1, std::memory_order_relaxed);
@@ -98,7 +110,13 @@ static void arena_reset() {
 	if(used) { mprotect(g_arena, used, PROT_READ | PROT_WRITE); madvise(g_arena, used, MADV_DONTNEED); }
 	g_off = 0; g_fail_in = 0; g_maps = 0; g_unmaps = 0; g_mapfails = 0;
 }
+static uintptr_t arena_map_(size_t len, size_t align);
 static uintptr_t arena_map(size_t len, size_t align) {
+	uintptr_t a = arena_map_(len, align);
+	if(t_rl) { t_rl->mp = a; t_rl->has_map = true; }
+	return a;
+}
+static uintptr_t arena_map_(size_t len, size_t align) {
 	long f = g_fail_in.load();
 	if(f > 0 && g_fail_in.fetch_sub(1) == 1) { g_mapfails++; return 0; }
 	size_t span = len + align + 0x1000;
@@ -314,20 +332,34 @@ template<typename Pol> static void run_mt(const vh::Lines &ls, int nt) {
 		Pool *pool = new Pool(pol);
 		std::vector<std::vector<Blk>> lives(nt);
 		long large_live = 0;
-		if(o == "mix") {
+		if(o == "mix" || o == "rlog") {
 			// mix ITERS SEED XFREE% SIZE...   random allocate/free/realloc on shared classes, cross-thread frees via mailboxes
+			// rlog ...                         the same workload, with the replay log (see RLog above) printed after the join
+			const bool rl = o == "rlog";
 			int iters = atoi(t[1].c_str()); uint64_t seed = vh::u64(t[2]); int xfree = atoi(t[3].c_str());
 			std::vector<size_t> sizes; for(size_t k = 4; k < t.size(); k++) sizes.push_back(vh::u64(t[k]));
 			const int MB = 64;
 			struct Slot { std::atomic<int> st{0}; Blk b{nullptr, 0, 0}; };      // 0 empty, 1 busy, 2 full
 			std::vector<Slot> mail(nt * MB);
+			std::vector<RLog> rlogs(nt);
+			g_seq = 0;
 			Barrier bar(nt);
 			run_threads(nt, [&](int me) {
 				Rng r{seed * 0x9E3779B97F4A7C15ull + me + 1};
 				auto &live = lives[me]; unsigned seq = 0;
+				RLog *mylog = rl ? &rlogs[me] : nullptr;
+				// API calls, logged when rl (the log is thread-local; the only shared object is the relaxed counter)
+				auto enter = [&]() -> uint64_t { if(!mylog) return 0; mylog->has_map = false; mylog->mp = 0; t_rl = mylog;
+					return g_seq.fetch_add(1, std::memory_order_relaxed); };
+				auto leave = [&](char k, void *p, size_t n, void *res, uint64_t sq) { if(!mylog) return; t_rl = nullptr;
+					mylog->calls.push_back({k, (uintptr_t)p, n, (uintptr_t)res, mylog->mp, mylog->has_map, sq}); };
+				auto do_alloc = [&](size_t n) { uint64_t sq = enter(); void *p = pool->allocate(n); leave('a', nullptr, n, p, sq); return p; };
+				auto do_free = [&](void *p) { uint64_t sq = enter(); pool->free(p); leave('f', p, 0, nullptr, sq); };
+				auto do_dealloc = [&](void *p, size_t n) { uint64_t sq = enter(); pool->deallocate(p, n); leave('d', p, n, nullptr, sq); };
+				auto do_realloc = [&](void *p, size_t n) { uint64_t sq = enter(); void *q = pool->realloc(p, n); leave('r', p, n, q, sq); return q; };
 				auto release = [&](Blk b) {
 					if(!stamp_ok(b.p, b.n, b.s)) viol("double-handout", "mix: owner stamp of block %p (%zu bytes) overwritten while live", b.p, b.n);
-					if(r.next() & 1) pool->free(b.p); else pool->deallocate(b.p, b.n);
+					if(r.next() & 1) do_free(b.p); else do_dealloc(b.p, b.n);
 				};
 				bar.wait();
 				for(int i = 0; i < iters; i++) {
@@ -341,7 +373,7 @@ template<typename Pol> static void run_mt(const vh::Lines &ls, int nt) {
 					int c = x % 100;
 					if(c < 55 || live.empty()) {
 						size_t n = sizes[(x >> 16) % sizes.size()];
-						void *p = pool->allocate(n);
+						void *p = do_alloc(n);
 						if(!p) continue;
 						Blk b{p, std::max<size_t>(n, 1), stamp_of(me, seq++)};
 						stamp(b.p, b.n, b.s); live.push_back(b);
@@ -349,7 +381,7 @@ template<typename Pol> static void run_mt(const vh::Lines &ls, int nt) {
 						size_t k = (x >> 16) % live.size(); size_t n = std::max<size_t>(sizes[(x >> 32) % sizes.size()], 1);
 						Blk b = live[k];
 						if(!stamp_ok(b.p, b.n, b.s)) viol("double-handout", "mix: stamp of %p overwritten before realloc", b.p);
-						void *p = pool->realloc(b.p, n);
+						void *p = do_realloc(b.p, n);
 						if(p) { Blk nb{p, std::max<size_t>(n, 1), stamp_of(me, seq++)}; stamp(nb.p, nb.n, nb.s); live[k] = nb; }
 					} else {
 						size_t k = (x >> 16) % live.size();
@@ -366,9 +398,35 @@ template<typename Pol> static void run_mt(const vh::Lines &ls, int nt) {
 						release(b);
 					}
 				}
+				t_rl = nullptr;
 			}, TMO);
 			// drain the mailboxes (state 1 cannot remain: every claimer completes its store before it finishes)
 			for(auto &s : mail) if(s.st.load() == 2) lives[0].push_back(s.b);
+			if(rl) {
+				printf("rl cfg %zu %zu %zu %d %d %d %zu %zu %d\n", (size_t)Pool::page_size, (size_t)Pool::sb_size, (size_t)Pool::slabsize,
+						(int)Pool::num_buckets, frg::is_detected_v<frg::policy_map_aligned_t, Pol> ? 1 : 0, Pool::has_poisoning ? 1 : 0,
+						sizeof(typename Pool::frame), sizeof(typename Pool::slab_frame), nt);
+				// events in global order: E <tid> (call entry), L <tid> (critical section)
+				struct Evt { uint64_t seq; int tid; char k; };
+				std::vector<Evt> evs;
+				for(int ti = 0; ti < nt; ti++) {
+					for(auto &cl : rlogs[ti].calls) {
+						evs.push_back({cl.seq, ti, 'E'});
+						if(cl.k == 'a') printf("rl c %d a %zu %lu %s %lu\n", ti, cl.n, (unsigned long)cl.res, cl.has_map ? "m" : "-", (unsigned long)cl.mp);
+						else if(cl.k == 'f') printf("rl c %d f %lu\n", ti, (unsigned long)cl.p);
+						else if(cl.k == 'd') printf("rl c %d d %lu %zu\n", ti, (unsigned long)cl.p, cl.n);
+						else printf("rl c %d r %lu %zu %lu %s %lu\n", ti, (unsigned long)cl.p, cl.n, (unsigned long)cl.res, cl.has_map ? "m" : "-", (unsigned long)cl.mp);
+					}
+					for(auto sq : rlogs[ti].lseq) evs.push_back({sq, ti, 'L'});
+				}
+				std::sort(evs.begin(), evs.end(), [](const Evt &a, const Evt &b) { return a.seq < b.seq; });
+				for(size_t i = 0; i < evs.size(); i += 400) {
+					std::string line = "rl o";
+					for(size_t j = i; j < evs.size() && j < i + 400; j++) { char buf[32]; snprintf(buf, sizeof buf, " %c%d", evs[j].k, evs[j].tid); line += buf; }
+					printf("%s\n", line.c_str());
+				}
+				printf("rl end %zu\n", evs.size());
+			}
 		} else if(o == "empty") {
 			// empty SIZE K : all threads find the class empty at the same time (barrier), K allocations each
 			size_t n = vh::u64(t[1]); int k = atoi(t[2].c_str());
